@@ -273,6 +273,26 @@ let run_conn (noise : bool) (expect : bool) (ka : int) (scr : string) (labels : 
          go c1 r (k + 1)) in
   go c0 labels 0; Stdlib.Buffer.contents buf
 
+let run_client (noise : bool) (expect : bool) (ka : int) (scr : string) (labels : string list) : string =
+  let k0 = Client.client_init noise expect (z_of_int ka) (parse_scripts scr) in
+  let buf = Stdlib.Buffer.create 256 in
+  let parse_cl w = match Stdlib.String.split_on_char ':' w with
+    | ["cstart"] -> Client.CStart | ["cfinish"; l] -> Client.CFinish (l = "1") | ["cdisc"] -> Client.CDisconnect false
+    | ["cforce"] -> Client.CDisconnect true | ["ccmd"] -> Client.CCommand [n_of_int 33]
+    | _ -> Client.CConn (parse_label w) in
+  let show_cobs = function Client.CO o -> show_obs o | Client.CRaiseAlready -> "XALREADY"
+    | Client.CRaiseNotConnected -> "XNC" | Client.CRaiseNotReady -> "XNR" in
+  let rec go k ls i = match ls with
+    | [] -> ()
+    | w :: r ->
+      (match Client.cstep k (parse_cl w) with
+       | None -> Stdlib.Buffer.add_string buf (Printf.sprintf "|!disabled@%d:%s" i w)
+       | Some (k1, o) ->
+         Stdlib.Buffer.add_string buf (Printf.sprintf "|%s,cl=%s#%s" (show_proj k1.Client.cl_conn) (b01 k1.Client.cl_has)
+                                         (Stdlib.String.concat "," (Stdlib.List.map show_cobs o)));
+         go k1 r (i + 1)) in
+  go k0 labels 0; Stdlib.Buffer.contents buf
+
 let handle (line : string) : string =
   match words line with
   | "venc" :: v :: [] -> hex_of_bytes (Varint.enc (n_of_hex v))
@@ -304,6 +324,7 @@ let handle (line : string) : string =
     (match WireSpec.spec_decode_plain (nat_of_int (Stdlib.List.length bs + 1)) bs with
      | None -> "none"
      | Some l -> if l = [] then "-" else Stdlib.String.concat "," (Stdlib.List.map (fun (t, p) -> hex_of_n t ^ ":" ^ hex_of_bytes p) l))
+  | "client" :: nz :: ex :: ka :: scr :: labels -> run_client (nz = "1") (ex = "1") (int_of_string ka) scr labels
   | "ka" :: h :: horizon :: arrs ->
     let hz = z_of_int (int_of_string h) in
     let obs = Keepalive.ka_sim (nat_of_int (4 * Stdlib.List.length arrs + 4000)) hz (Keepalive.ka_init hz)
